@@ -418,11 +418,11 @@ func (ee *explainer) explainSeqMappings(mm []mapping) {
 		}
 
 		if rangeLen > 2 {
-			fmt.Fprintf(ee.w, "%s-%s -> %s-%s",
+			fmt.Fprintf(ee.w, "%s%s -> %s%s",
 				ee.names[mm[0].from[0]],
-				ee.names[mm[rangeLen-1].from[0]],
+				ee.rangeEnd(mm[rangeLen-1].from[0]),
 				ee.names[mm[0].to[0]],
-				ee.names[mm[rangeLen-1].to[0]],
+				ee.rangeEnd(mm[rangeLen-1].to[0]),
 			)
 			mm = mm[rangeLen:]
 		} else {
@@ -432,6 +432,17 @@ func (ee *explainer) explainSeqMappings(mm []mapping) {
 			mm = mm[1:]
 		}
 	}
+}
+
+// rangeEnd returns the text for the upper end of a glyph range.  Glyphs
+// without a name are written as numbers; the lexer reads "-5" as a negative
+// integer, so the hyphen must be followed by a space there.
+func (ee *explainer) rangeEnd(gid glyph.ID) string {
+	name := ee.names[gid]
+	if c := name[0]; c >= '0' && c <= '9' {
+		return "- " + name
+	}
+	return "-" + name
 }
 
 func (ee *explainer) writeGlyph(gid glyph.ID) {
